@@ -141,6 +141,27 @@ def fd_check(f, x0, grad, what):
     return None
 
 
+def stable_fd_check(f, x0, grad, what):
+    """finite differences that only speak where two step sizes agree with each other"""
+    def richardson(k, h):
+        def at(e):
+            x = np.array(x0, dtype=float)
+            x[k] += e
+            return float(f(x))
+        vals = [at(h), at(-h), at(h / 2), at(-h / 2)]
+        if not all(math.isfinite(v) for v in vals):
+            return None
+        return (4 * (vals[2] - vals[3]) / h - (vals[0] - vals[1]) / (2 * h)) / 3
+    for k in range(len(x0)):
+        g1, g2 = richardson(k, 1e-4), richardson(k, 2.5e-5)
+        if g1 is None or g2 is None or abs(g1 - g2) > 1e-6 * (1 + abs(g2)):
+            continue
+        if abs(g2 - grad[k]) > 2e-5 * (1 + abs(g2)):
+            return '%s: sensitivity %d is %r, finite differences of the plain evaluation give %r (two step sizes agree)' % (
+                what, k, grad[k], g2)
+    return None
+
+
 def ll_oracle(case):
     try:
         res = run_ll(case)
@@ -293,6 +314,13 @@ def run(ck):
             ck.count('B kind=%s%s%s' % (s.kind, '' if s.centered else 'nc', '+cov' if s.cov else ''))
         ck.count('B posterior' if case['posterior'] else 'B likelihood')
         d = h_direct(case, res)
+        if d is None and math.isfinite(res['value']):
+            # the sensitivities must be the derivatives of the score chi itself evaluates (the certified route compares
+            # them with the specification's gradient; a score that deviates from the specification is C02's business,
+            # but its gradient must still match it)
+            obj, h, lls, S2, fixed, prior = build_h(case)
+            v = np.array(case['v'], dtype=float)
+            d = stable_fd_check(obj, v if fixed is None else np.delete(v, fixed), res['grad'], 'hierarchical log-pdf')
         if d:
             ck.violation(key_of(case, ''), d, case)
             continue
